@@ -114,6 +114,9 @@ def handle (toks : List String) : String :=
           if rs == sp then showRows rs else "MODEL-SPEC-MISMATCH " ++ showRows rs
         | _ => "bad-op"
     | _, _ => "bad-op"
+  -- regexp with per-row flags: the regex engine is external (oracle in the harness)
+  | ["rxf", _, _, _, _] => "SKIP"
+  | ["rxmf", _, _, _, _] => "SKIP"
   | ["substr", kind, start, len, hays] =>
     match parseInt start, parseLen len, parseRows hays with
     | some start, some len, some hays =>
